@@ -707,7 +707,7 @@ def judge_mcp(j, td, cfg, B):
         elif bool((cnt > hi_s).any()):
             j.v("range:membership", "a set is larger than max_size")
         elif bool((cnt < lo_s).any()):
-            j.n(f"mcp: {int((cnt < lo_s).sum())} set(s) hold fewer than min_size={lo_s} distinct items after repeated items were removed (informational: the docstring does not say whether min_size counts distinct items)")
+            j.n("mcp: some sets hold fewer than min_size distinct items after repeated items were removed (informational: the docstring does not say whether min_size counts distinct items)")
     if _shape(j, td, "weights", (B, I)) and _finite(j, td["weights"], "weights"):
         _integral(j, td["weights"].double(), "weights")
         _range(j, td["weights"], cfg.get("min_weight", 1), cfg.get("max_weight", 10), "weights", tol=0)
@@ -1061,7 +1061,7 @@ def wants_solvability(g, cfg, points):
 
 
 def degenerate(td):
-    """all locations of every row (depot included) coincide (or, where the sampler rescales by the spread of the
+    """all locations of some row (depot included) coincide (or, where the sampler rescales by the spread of the
     points, are all non-finite for that reason): only the constant / alternating answer patterns of a coordinate
     draw produce this; it is a probability-zero instance"""
     if "locs" not in td.keys():
@@ -1073,7 +1073,7 @@ def degenerate(td):
     if pts.shape[1] < 2:
         return False
     spread = (pts - pts[:, :1]).abs().amax(dim=(1, 2))
-    return bool(((spread == 0) | ~torch.isfinite(spread)).all())
+    return bool(((spread == 0) | ~torch.isfinite(spread)).any())
 
 
 def _squash(m):
